@@ -19,6 +19,7 @@ Tokens (same vocabulary as `siodriver simple`): P · C · Cf · T · Kc Kd Kf ·
 """
 import _thread
 import asyncio
+import signal
 import threading
 
 from . import common as C  # noqa  (puts VERIF_REPO/src on sys.path)
@@ -568,6 +569,14 @@ class ThreadWorld(WorldBase):
 
 # ------------------------------------------------------------------------------------ asyncio
 
+class Spinning(Exception):
+    """a task keeps running without suspending"""
+
+
+def _spinning(signum, frame):
+    raise Spinning('the consumer task has been running for 5 s without suspending')
+
+
 class VirtualLoop(asyncio.SelectorEventLoop):
     """time() moves only when the schedule says so"""
 
@@ -579,14 +588,25 @@ class VirtualLoop(asyncio.SelectorEventLoop):
         return self.vtime
 
     def pump(self):
-        """run loop iterations until nothing is ready (never blocks: a stop callback is always queued)"""
+        """run loop iterations until nothing is ready (never blocks: a stop callback is always queued).
+        A coroutine that spins without ever suspending would hang the check: a watchdog interrupts it
+        (the only wall-clock element; it never fires on code that suspends)."""
         n = 0
-        while self._ready:
-            self.call_soon(self.stop)
-            self.run_forever()
-            n += 1
-            if n > 1000:
-                raise C.Infra('event loop does not quiesce')
+        armed = threading.current_thread() is threading.main_thread()
+        if armed:
+            old = signal.signal(signal.SIGALRM, _spinning)
+            signal.setitimer(signal.ITIMER_REAL, 5)
+        try:
+            while self._ready:
+                self.call_soon(self.stop)
+                self.run_forever()
+                n += 1
+                if n > 1000:
+                    raise Spinning('event loop does not quiesce')
+        finally:
+            if armed:
+                signal.setitimer(signal.ITIMER_REAL, 0)
+                signal.signal(signal.SIGALRM, old)
 
     def next_timer(self):
         live = [h for h in self._scheduled if not h._cancelled]
